@@ -33,7 +33,8 @@ WS_NATURAL = ['calib_unset', 'resolve_unset', 'flist_missing', 'flist_truncated'
               'calib_empty', 'calib_empty+resolve_unset', 'calib_empty+flist_missing', 'calib_empty+score_raises']
 TI_NATURAL = ['par_missing', 'kw_missing_object', 'kw_missing_run1d', 'kw_missing_minuse', 'kw_nonnumeric_niter',
               'kw_nonnumeric_wavemin', 'hmf_kw_missing_epsilon', 'hmf_kw_bad_nonnegative', 'spplate_missing', 'fibre_absent',
-              'unknown_method', 'dump_unwritable', 'no_eigenobj_table', 'redux_unset', 'run2d_integer', 'no_matplotlib']
+              'unknown_method', 'dump_unwritable', 'no_eigenobj_table', 'redux_unset', 'run2d_integer', 'no_matplotlib',
+              'backend_unloadable', 'backend_unloadable+unknown_method', 'backend_unloadable+dump_unwritable']
 NL_WS, NC_WS = 40, 24            # upper bounds on line events / direct calls of window_score (checked against the recording)
 NL_TI, NC_TI = 560, 320          # ... of template_input + _template_input + template_metadata
 
@@ -54,7 +55,7 @@ class C20(Check):
                    'window_score runs with a stub sdss_score collaborator (as the repository\'s own tests do); its failure is injected',
                    'template_input runs on a synthetic two-plate survey tree (vlib/gen/survey_tree.py, content=spectra) in a temporary cwd',
                    'only Python-level collaborators raise PY_START events; C-level calls are covered by the line-level faults']
-    REQUIRED_COUNTERS = ('clean_runs_restored', 'line_faults_fired', 'call_faults_fired', 'natural_failures_seen',
+    REQUIRED_COUNTERS = ('ti_runs_with_unloadable_configured_backend', 'clean_runs_restored', 'line_faults_fired', 'call_faults_fired', 'natural_failures_seen',
                          'faults_while_env_modified', 'putenv_events_observed', 'ws_runs', 'ti_runs')
     CASE_CPU_S = 300
     QUICK_SHARDS = 8
@@ -409,6 +410,12 @@ class C20(Check):
         fault = case['fault']
         cfg = case['cfg']
         nat = fault.get('natural')
+        # the session's configured matplotlib backend is part of the state of the process: 'backend_unloadable' (alone or combined
+        # with another condition) names one that cannot be loaded on this machine (WebAgg without tornado, a module:// backend
+        # that is not installed) while figures are drawn with the backend already loaded
+        backend_unloadable = bool(nat) and 'backend_unloadable' in nat.split('+')
+        if backend_unloadable:
+            nat = '+'.join(p for p in nat.split('+') if p != 'backend_unloadable') or None
         out.count('ti_runs')
         tree = self._ti_tree()
         self._n += 1
@@ -445,11 +452,21 @@ class C20(Check):
                     # an installation without matplotlib: the module's import guard then leaves no global `plt` behind
                     saved_plt = S1.plt
                     del S1.plt
+                saved_backend = None
+                if backend_unloadable:
+                    import matplotlib
+                    saved_backend = matplotlib.rcParams['backend']
+                    matplotlib.rcParams['backend'] = 'module://pydl_verif_backend_that_is_not_installed'
+                    out.count('ti_runs_with_unloadable_configured_backend')
                 try:
                     before, after, events, exc, fp = self._monitored(self.ti_codes, func, fault)
                 finally:
                     if saved_plt is not None:
                         S1.plt = saved_plt
+                    if saved_backend is not None:
+                        matplotlib.rcParams['backend'] = saved_backend
+                        import matplotlib.pyplot as _plt
+                        _plt.switch_backend(saved_backend)
                 ev = self._verdict(out, before, after, events, ['RUN2D', 'RUN1D'],
                                    'template_input(method=%s, init=%s) fault=%s' % (cfg['method'], cfg['init'], fault), fp)
                 self._account(out, case, fault, exc, fp, ev, before, ['RUN2D', 'RUN1D'], rec)
